@@ -120,6 +120,27 @@ def call(ts, method, kw):
     return getattr(ts, method)(**kw)
 
 
+RO_ORACLE = ("queries give the same answer when run concurrently on the same series: no query writes to the stored arrays while it "
+             "runs (observed by making the stored arrays read-only: the query must still succeed and give the same answer)")
+
+
+def readonly_probe(ts, method, kw, r1):
+    """-> None or the observation that the query wrote (tried to write) to the stored arrays during the call"""
+    fl = (ts._t.flags.writeable, ts.x.flags.writeable)
+    ts._t.setflags(write=False)
+    ts.x.setflags(write=False)
+    try:
+        r3 = call(ts, method, kw)
+    except Exception as e:
+        return "raised %s: %s" % (type(e).__name__, str(e)[:120])
+    finally:
+        ts._t.setflags(write=fl[0])
+        ts.x.setflags(write=fl[1])
+    if not same(r1, r3):
+        return "different answer"
+    return None
+
+
 # ======================================================================================================================
 #  copy cases
 # ======================================================================================================================
@@ -505,7 +526,6 @@ def gen_db_cases(rng, quick):
 
 
 def run(chk):
-    from qats import TimeSeries, TsDB
     from qats.app import funcs
     chk.extra["rule"] = RULE
     chk.assumptions += ["aliasing is observed with np.shares_memory and object identity; the Lean step programs mirror TimeSeries.get / minima"]
@@ -565,6 +585,11 @@ def run(chk):
             chk.fail("a query does not modify the caller's resampling array", inp, "unchanged", "changed")
         if not same(r1, r2):
             chk.fail("a repeated query gives the same answer", inp, "equal", "different")
+        obs = readonly_probe(ts, m, kw, r1)
+        if obs is not None:
+            chk.fail(RO_ORACLE, inp, "same answer, no write", obs)
+        if snap(ts) != before:
+            chk.fail("a query leaves the stored time, data and attributes bit-for-bit unchanged", inp, "unchanged", "changed (third call)")
         res = arrays_in(r1)
         for a in res:
             if np.shares_memory(a, ts.t) or np.shares_memory(a, ts.x):
@@ -673,6 +698,13 @@ def replay(rp):
         bad += 1
     if any(np.shares_memory(a, ts.t) or np.shares_memory(a, ts.x) for a in arrays_in(r)):
         print("FAILS: result aliases stored array")
+        bad += 1
+    if not same(r, call(ts, inp["method"], kw)):
+        print("FAILS: repeated query gives a different answer")
+        bad += 1
+    obs = readonly_probe(ts, inp["method"], kw, r)
+    if obs is not None:
+        print("FAILS: %s\n       observed: %s" % (RO_ORACLE, obs))
         bad += 1
     print("replay: %d failing clause(s)" % bad)
     return 1 if bad else 0
